@@ -25,7 +25,8 @@ THEOREMS = ['notes_local', 'line_notes', 'notes_independent_of_sizes', 'gss_wild
 EXTENSIONS = ['props.ext.C03_lookup']
 TECHNIQUE = 'Lean 4 theorems (list-homomorphism locality, rindex lemma for the gss wildcard over unbounded suffixes, per-level text/JSON equality) + every-database-name correspondence across text, JSON and --lookup'
 LEVEL_TEXT = ('A line\'s notes are proved to be a function of (database state, category, name) only — no position, neighbour, role, size map or option enters — gss names of any suffix rate as their wildcard entry, '
-              'unknown names are always flagged in both views, and JSON failure/warning notes equal the text ones. Every database name is rendered on the real code in every view and position and compared with the model.')
+              'unknown names are always flagged in both views, and JSON failure/warning notes equal the text ones. Every database name is rendered on the real code in every view and position and compared with the model.'
+              " Extension (Props/C03Lookup, 56 theorems): a model of algorithm_lookup and of main()'s dispatch to it — a name is printed under a category iff it is requested and a key of it (gss instances through their wildcard entry), with exactly the notes the audit report model gives it, whatever else is requested; unknown names are exactly the not-found list; suggestions, return status; tied to the real --lookup and cross-checked against real audit renderings.")
 LEVEL_NOTE = ('Trusted: Lean kernel, harness. The database state is the master table plus the documented measured attributes (sizes via C11/C12, Terrapin via C04). '
               'D06 (since-text appended to the database list) and D07 (JSON rated gss names unknown) were repaired in /repo; their witnesses run first. Info-level JSON notes list the since-text last, the text report first (same set).')
 
